@@ -51,8 +51,19 @@ def configs(tier, seed):
             out.append({"name": "iso-%s-%s-x2-T%d" % (algo, part, T + q), "mode": "iso", "algo": algo, "other": algo, "part": part, "d": 1, "T": T + q, "cost": 20})
         if algo != "T_HOO":
             out.append({"name": "iso-T_HOO-vs-%s-B-T%d" % (algo, T + q), "mode": "iso", "algo": "T_HOO", "other": algo, "part": "B", "d": 1, "T": min(T + q, 3), "cost": 20})
+    for algo, T in T_DET.items():
+        Tq = T + q + (3 if algo in ("SequOOL", "StoSOO", "SOO") else 0)
+        out.append({"name": "reuse-%s-B-T%d" % (algo, Tq), "mode": "reuse", "algo": algo, "part": "B", "d": 1, "T": Tq, "cost": Tq * 4})
     out.append({"name": "twin-det", "mode": "det", "algo": "T_HOO", "part": "B", "d": 1, "T": 2, "twin": True, "expect_fail": "twin"})
     return out
+
+
+OTHER_ARGS = {
+    "T_HOO": {"rounds": 1000, "nu": 3, "rho": 0.7}, "HCT": {"c": 0.3, "nu": 3, "rho": 0.7, "delta": 0.05}, "VHCT": {"c": 0.3, "nu": 3, "rho": 0.7, "bound": 2},
+    "DOO": {"n": 50}, "SOO": {"n": 50, "h_max": 5}, "StoSOO": {"n": 400, "k": 3, "h_max": 5}, "SequOOL": {"n": 40}, "StroquOOL": {"n": 400},
+    "VROOM": {"n": 8, "h_max": 2, "b": 2, "f_max": 3}, "Zooming": {"nu": 3, "rho": 0.5}, "POO": {"rounds": 500, "rhomax": 0.95, "numax": 2},
+    "GPO": {"rounds": 300, "rhomax": 0.8, "numax": 2}, "PCT": {"rounds": 300, "rhomax": 0.8, "numax": 2}, "VPCT": {"rounds": 300, "rhomax": 0.8, "numax": 2},
+}
 
 
 def setup(mods_):
@@ -127,6 +138,23 @@ def run(ctx, cfg):
             ctx.observe("p%d" % k, p)
         if cfg.get("twin"):
             ctx.check_eq("twin", a[0][0], a[1][0], "reachability witness: deliberately false")
+        return
+    if mode == "reuse":
+        # the same run before and after another instance with different arguments lived in the process
+        shims.rng_record()
+        try:
+            a = one_run(ctx, cfg, dom, rewards, T)
+            tape = list(shims.RNG_STATE["tape"])
+            shims.rng_fresh()
+            dom_b = sym_box(ctx, d)
+            rb = [ctx.real("s%d" % t) for t in range(1, 3)]
+            one_run(ctx, dict(cfg, params=OTHER_ARGS[cfg["algo"]]), dom_b, rb, 2)
+            shims.rng_replay(tape=tape)
+            b = one_run(ctx, cfg, dom, rewards, T)
+        finally:
+            shims.rng_fresh()
+        compare(ctx, "isolation", a, b, "the same run repeated after an instance with other arguments was used")
+        check_domain(ctx, dom, snap, "domain:not_mutated")
         return
     # isolation
     shims.rng_fresh()
